@@ -191,3 +191,55 @@ func (s *dpState) finishHistory(h *history) {
 		os.Remove(f)
 	}
 }
+
+// morph turns the expression object dst into the expression src IN PLACE wherever the node
+// kinds agree (leaf fields overwritten, operand slices overwritten / extended / truncated), so
+// that a query object is reused and modified between two executions. false: kinds differ.
+func morph(dst, src updog.Expression) bool {
+	switch d := dst.(type) {
+	case *updog.ExprEqual:
+		s, ok := src.(*updog.ExprEqual)
+		if !ok {
+			return false
+		}
+		d.Column, d.Value = s.Column, s.Value
+		return true
+	case *updog.ExprNot:
+		s, ok := src.(*updog.ExprNot)
+		if !ok {
+			return false
+		}
+		if !morph(d.Expr, s.Expr) {
+			d.Expr = s.Expr
+		}
+		return true
+	case *updog.ExprAnd:
+		s, ok := src.(*updog.ExprAnd)
+		if !ok {
+			return false
+		}
+		d.Exprs = morphList(d.Exprs, s.Exprs)
+		return true
+	case *updog.ExprOr:
+		s, ok := src.(*updog.ExprOr)
+		if !ok {
+			return false
+		}
+		d.Exprs = morphList(d.Exprs, s.Exprs)
+		return true
+	}
+	return false
+}
+
+func morphList(dst, src []updog.Expression) []updog.Expression {
+	for i := range src {
+		if i < len(dst) {
+			if !morph(dst[i], src[i]) {
+				dst[i] = src[i]
+			}
+		} else {
+			dst = append(dst, src[i])
+		}
+	}
+	return dst[:len(src)]
+}
